@@ -6,29 +6,43 @@ SPEC = {
     "facts": ["graphiql"],
     "bin": "c34",
     "requires": "From AG Require Import Graphiql.",
-    "def_type": "unit",
+    "def_type": "str",
     "streams": [
-        {"kind": "CASE", "type": "(config * str)", "eval": "check_case", "per_shard": 8},
+        {"kind": "CASE", "type": "(config * str * str)", "eval": "check_case", "per_shard": 8},
         {"kind": "SYN", "type": "(str * bool)", "eval": "check_syn", "per_shard": 8},
         {"kind": "ESC", "type": "(str * str)", "eval": "check_esc", "per_shard": 400},
     ],
-    "classes": {1: "script-string-html-escaped", 2: "headers-and-ws-params-missing-comma"},
+    "classes": {1: "script-string-html-escaped", 2: "headers-and-ws-params-missing-comma",
+                3: "script-string-backslash-or-line-terminator"},
     "n_quick": 120, "n_thorough": 2500,
     "level": "proof",
     "what_violation": "a configured string does not reach the GraphiQL script/title verbatim, or ends its context",
     "rule": ("configurations built with GraphiQLSource::build()...finish(): the three configurations of the repository's tests, the "
-             "witnesses of the known findings, then random endpoint / subscription endpoint / title / 0-2 headers / 0-2 connection "
-             "parameters / version / credentials with strings from nine classes (plain URLs, ampersands, single quotes, double quotes, "
+             "witnesses of the known findings, endpoints / subscription endpoints / header and connection-parameter strings / titles "
+             "with a query string followed by each dangerous class (/graphql?a=1&b='x, /g?q=</script><script>alert(1)</script>, "
+             "/ws?token=it's, ?', ?\\, ?LF ...), then random endpoint / subscription endpoint / title / 0-2 headers / 0-2 connection "
+             "parameters / version / credentials with strings from ten classes (plain URLs, ampersands, single quotes, double quotes, "
              "angle brackets and </script> </title> <!--, backslashes, line terminators incl. U+2028/2029, non-ASCII, template/JS "
-             "metacharacters) and their concatenations; the whole page is compared with the model's page and walked by the "
-             "specification; the escaper alone on 6n strings through the title hole; node --check on up to 24 pages; "
+             "metacharacters, query strings with a dangerous tail), their concatenations, and url?query=<value of any class>; "
+             "two judgements per case: VERBATIM - the whole page is compared with the model's page and walked hole by hole by the "
+             "specification (JS literal evaluation, RCDATA decoding); CONTEXT - the lexical skeleton (title text dropped, every string "
+             "literal of the module script collapsed, comments dropped) of the real page must equal the skeleton of the real page of the "
+             "neutral configuration of the same shape (all strings x): this uses no template model, and a context break on the real "
+             "page outside the backslash / line-terminator class is a violation with the configuration as replay whatever other known "
+             "class the configuration is in; the escaper alone on 6n strings through the title hole; node --check on up to 24 pages; "
              "distinct by configuration; non-trivial = at least one optional setting present"),
     "trusted": ["tools/factsgen/graphiql.py (jinja -> TemplateGen.v, HTML/JS context scanner)",
                 "harness adapters (configuration -> Gallina record, map order read back from the page)",
-                "the Coq JS string-literal evaluator and RCDATA decoder (Graphiql.v) stand for the browser",
+                "the Coq JS string-literal evaluator, the JS skeleton lexer and the RCDATA decoder (Graphiql.v) stand for the browser",
+                "harness: the neutral page handed to a case is GraphiQLSource::finish on the all-x configuration of the same shape",
                 "differential sampling: Graphiql.v render = askama's generated code on this run's cases"],
     "assumptions": [
         "a browser evaluates '...' in a module script as Graphiql.js_sq_f does and decodes <title> text as rcdata_f does",
+        "two real pages with the same lexical skeleton (Graphiql.page_skel: string literals collapsed, comments and title text dropped) "
+        "have the same script / HTML structure; the module script uses no regular-expression literals and no ${} template substitutions",
+        "when the translator rejects the template, coq/gen.baseline/TemplateGen.v (python3 tools/facts.py --save-baseline; its header "
+        "carries the sha256 of the .jinja it was made from) stands in as the model ONLY to search for a failing input; the context "
+        "judgement does not use it",
         "{{ version }} and {{ credentials }} are rendered and compared but are not part of the property",
         "the Gallina renderer (Graphiql.v over the translated template) is askama's output: checked by correspondence on this run's cases only",
     ],
@@ -38,14 +52,18 @@ MANIFEST = {
     "category": "proof",
     "technique": ("Coq proof over the template translated from the .jinja on every run (HTML escaper, ECMAScript single-quoted "
                   "literal evaluator, RCDATA decoder, </script detector) + whole-page differential correspondence with "
-                  "GraphiQLSource::finish + node --check on sampled pages"),
+                  "GraphiQLSource::finish + model-free lexical-skeleton comparison of the real page with the real neutral page "
+                  "+ node --check on sampled pages"),
     "text": ("Coq theorems: for all strings the title text decodes to exactly the configured title and cannot close <title>; for all "
              "strings without & < > \" ' \\ LF CR the single-quoted literal of every script hole evaluates to exactly the configured "
-             "value and ends at the template's quote; for all strings the escaped text contains no < > ' \" so it cannot leave the "
-             "script or HTML context by itself; refuted for the full statement: entity-escaped text is shown verbatim to the script "
-             "(a&b becomes a&#38;b), a trailing backslash swallows the closing quote, a raw line terminator breaks the literal, and "
-             "headers together with connection parameters render two object members without a comma (the module does not parse). "
-             "Every hole of the translated template is shown to sit in the context the theorems assume."),
+             "value and ends at the template's quote; for all strings without \\ LF CR (quotes, ampersands, angle brackets, </script> "
+             "included) the rendered literal ends exactly at the template's closing quote and the page skeleton is that of the neutral "
+             "value (context-safe); for all strings the escaped text contains no < > ' \"; refuted for the full statement: "
+             "entity-escaped text is shown verbatim to the script (a&b becomes a&#38;b; context-safe), a trailing backslash swallows "
+             "the closing quote and a raw line terminator cuts the literal (the value ends its context), and headers together with "
+             "connection parameters render two object members without a comma (the module does not parse). Every hole of the "
+             "translated template is shown to sit in the context the theorems assume. Per case the context judgement is made on the "
+             "real pages alone (no template model), so it still decides when the template leaves the translated subset."),
     "note": ("trusted: Coq kernel, template translator, the Coq model of JS/HTML lexing, sampled agreement model vs code; theorems "
              "closed under the global context (no axioms)"),
 }
